@@ -17,6 +17,86 @@ import (
 func init() {
 	engines["seq"] = runSeq
 	generators["C01"] = genC01
+	generators["C07"] = genC07
+	generators["C04"] = genC04
+}
+
+// genC04: histories on the multihash primary with small files and GC cycles of
+// both kinds at arbitrary positions (with unflushed data, repeated, interrupted).
+func genC04(seed uint64, tier string) *Plan {
+	r := simrt.NewRand(seed)
+	p := &Plan{Engine: "seq", X: map[string]int{}}
+	p.Cfg = genCfg(r, false)
+	p.Cfg.Primary = "multihash"
+	if r.Chance(0.1) {
+		p.Cfg.Primary = "CID" // index GC only
+	}
+	if p.Cfg.Bits > 17 {
+		p.Cfg.Bits = 8
+	}
+	// small limits so that superseded records land in non-current files
+	small := []uint32{16, 32, 64, 100, 300, 1024}
+	if r.Chance(0.8) {
+		p.Cfg.PrimaryFile = small[r.Intn(len(small))]
+	}
+	if r.Chance(0.8) {
+		p.Cfg.IndexFile = small[r.Intn(len(small))]
+	}
+	p.Cfg.GCMs = 1000 * 3600 * 1000
+	nk := 1 + r.Intn(10)
+	p.Keys = GenKeys(r, nk, p.Cfg.ShortKeys)
+	mix := opMix{put: 40, get: 15, has: 3, size: 3, remove: 15, flush: 12, iter: 4, reput: 3}
+	n := 5 + r.Intn(50)
+	vseq := 0
+	ops := genSeqOps(r, n, nk, mix, false, &vseq)
+	var out []Op
+	ngc := 0
+	pGC := 0.1 + 0.25*r.Float()
+	for _, o := range ops {
+		out = append(out, o)
+		if ngc < 15 && r.Chance(pGC) {
+			ngc++
+			if r.Chance(0.45) {
+				g := Op{K: "igc", A: r.Intn(2)}
+				if r.Chance(0.2) {
+					g.B = 1 + r.Intn(12)
+				}
+				out = append(out, g)
+			} else {
+				g := Op{K: "pgc", A: []int{0, 1, 50, 74, 85, 100, 101}[r.Intn(7)]}
+				if r.Chance(0.2) {
+					g.B = 1 + r.Intn(12)
+				}
+				out = append(out, g)
+			}
+			if r.Chance(0.3) {
+				out = append(out, Op{K: "flush"})
+			}
+		}
+	}
+	if r.Chance(0.5) {
+		out = append(out, Op{K: "reopen", A: r.Intn(2)})
+	}
+	p.Ops = out
+	p.Sim = SimCfg{Strategy: simrt.Strategy{Kind: "sticky", Stick: 0.9}}
+	return p
+}
+
+// genC07 mixes the histories of the other engines with the fsck oracle on.
+func genC07(seed uint64, tier string) *Plan {
+	p := genC01(seed, tier)
+	p.X["fsck"] = 1
+	// more flushes: each one is a checkpoint
+	r := simrt.NewRand(seed ^ 0xc07)
+	var ops []Op
+	for _, o := range p.Ops {
+		ops = append(ops, o)
+		if r.Chance(0.15) {
+			ops = append(ops, Op{K: "flush"})
+		}
+	}
+	p.Ops = ops
+	return p
 }
 
 func planHash(p *Plan) uint64 {
@@ -70,9 +150,23 @@ func genC01(seed uint64, tier string) *Plan {
 // Exec runs one plan op in sequential-oracle mode.
 func (d *Driver) Exec(op *Op) {
 	switch op.K {
-	case "put", "reput", "get", "has", "size", "remove", "flush", "iter":
+	case "put", "reput", "get", "has", "size", "remove", "iter":
+		d.noteBefore(op)
 		r := d.Call(op)
 		d.CheckSeq(op, r)
+	case "flush":
+		var start *Model
+		if d.Adm != nil {
+			start = d.Model.Clone()
+		}
+		r := d.Call(op)
+		d.CheckSeq(op, r)
+		if r.Err == "" {
+			d.noteFlushed(start)
+			if d.FsckOn && d.Viol == nil {
+				d.RunFsck("after Flush", false)
+			}
+		}
 	case "reopen":
 		d.Reopen(op)
 	case "igc":
@@ -94,9 +188,20 @@ func (d *Driver) CloseStore(class string) bool {
 	if d.St == nil {
 		return true
 	}
+	var start *Model
+	if d.Adm != nil {
+		start = d.Model.Clone()
+	}
 	if err := d.St.Close(); err != nil {
 		d.fail(class+"/close-error", "Close returned %v", err)
 		return false
+	}
+	d.noteFlushed(start)
+	if d.FsckOn && d.Viol == nil {
+		d.RunFsck("after Close", true)
+		if d.Viol != nil {
+			return false
+		}
 	}
 	return true
 }
@@ -172,7 +277,10 @@ func (d *Driver) IndexGC(op *Op) {
 	}
 	_, _, err := d.St.Index().VerifGC(ctx, op.A&1 == 1)
 	if !gcErrOK(err) {
-		d.fail("gc/index-gc-error", "index GC cycle failed: %v", err)
+		d.Probes["index-gc-error"]++
+		if d.GCErrFatal {
+			d.fail("gc/index-gc-error", "index GC cycle failed: %v", err)
+		}
 		return
 	}
 	d.Probes["index-gc"]++
@@ -196,7 +304,10 @@ func (d *Driver) PrimaryGC(op *Op) {
 	}
 	_, err := mp.GC(ctx, int64(op.A))
 	if !gcErrOK(err) {
-		d.fail("gc/primary-gc-error", "primary GC cycle failed: %v", err)
+		d.Probes["primary-gc-error"]++
+		if d.GCErrFatal {
+			d.fail("gc/primary-gc-error", "primary GC cycle failed: %v", err)
+		}
 		return
 	}
 	d.Probes["primary-gc"]++
@@ -263,6 +374,7 @@ func runSeq(p *Plan, tape *simrt.Tape, opt RunOpt) *RunOut {
 	fs := newStoreFS()
 	d := NewDriver(p)
 	d.staticProbes()
+	d.FsckOn = p.x("fsck", 0) == 1
 	w, res := world(p, tape, fs, opt, nil, func() {
 		if err := d.Open(); err != nil {
 			d.fail("open-error", "OpenStore failed: %v", err)
@@ -290,9 +402,29 @@ func runSeq(p *Plan, tape *simrt.Tape, opt RunOpt) *RunOut {
 	d.fileProbes(fs)
 	out.addFS(fs)
 	out.addProbes(d.Probes)
-	finish(out, w, res, p, d.Viol, opt)
+	viol := d.Viol
+	if only := onlyClass(p); only != "" && viol != nil && !strings.HasPrefix(viol.Class, only) {
+		// another property's oracle failed first; this check reports only its own
+		out.Probes["other-oracle-failed"]++
+		viol = nil
+	}
+	finish(out, w, res, p, viol, opt)
+	if only := onlyClass(p); only != "" && out.Viol != nil && !strings.HasPrefix(out.Viol.Class, only) {
+		out.Probes["other-oracle-failed"]++
+		out.Viol = nil
+	}
 	out.Sample = fmt.Sprintf("cfg=%+v keys=%d ops=%v", p.Cfg, len(p.Keys), opsString(p.Ops, 12))
 	return out
+}
+
+// onlyClass returns the violation-class prefix a property's check reports
+// (empty: everything the engine finds).
+func onlyClass(p *Plan) string {
+	switch p.Prop {
+	case "C07":
+		return "fsck"
+	}
+	return ""
 }
 
 func opsString(ops []Op, max int) string {
